@@ -851,7 +851,7 @@ def check_C19(ctx, replay=None):
 
 # ------------------------------------------------------------------------------------------------ C13
 C13_THEOREMS = ["C13_invert_order_independent", "C13_unpack_order_independent", "C13_label_sweep_order_independent", "C13_flag_strings",
-                "C13_cached_arch_same_program"]
+                "C13_cached_arch_same_program", "C13_library_reads_no_ambient_state"]
 
 
 def check_C13(ctx, replay=None):
